@@ -79,7 +79,12 @@ class PrefixSid(Attribute):
         return cls(sr_attrs=sr_attrs, packed=original)
 
     def json(self, compact: bool | None = None) -> str:
-        content: str = ', '.join(d.json() for d in self.sr_attrs)
+        # one entry per name: a TLV sent twice would otherwise be a duplicate key
+        named: dict[str, str] = {}
+        for d in self.sr_attrs:
+            rendered = d.json()
+            named.setdefault(rendered.split(':', 1)[0], rendered)
+        content: str = ', '.join(named.values())
         return f'{{ {content} }}'
 
     def __str__(self) -> str:
